@@ -48,6 +48,25 @@ def basis(kind, n):
     raise KeyError(kind)
 
 
+def basis_pair(kind, n):
+    """(R, L) with L^dagger R = 1 and exactly representable entries; unitary kinds have L = R."""
+    if kind in ("biorth", "biorth_complex"):
+        S = np.eye(n, dtype=complex)
+        for a in range(n - 1):
+            S[a, a + 1] = 0.5
+        if kind == "biorth_complex":
+            S[0, 1] = 0.5j
+            S[0, n - 1] = S[0, n - 1] + 0.25
+        Si = np.linalg.inv(S)
+        Si = np.round(Si * 1024) / 1024  # dyadic entries: exact after rounding away float noise
+        assert np.array_equal(Si @ S, np.eye(n)), "basis pair is not exactly biorthogonal"
+        if kind == "biorth":
+            return S.real.copy(), Si.conj().T.real.copy()
+        return S, Si.conj().T.copy()
+    Q = basis(kind, n)
+    return Q, Q
+
+
 def exact_factorized(A):
     """Stub for scipy.sparse.linalg.factorized: exact rational inverse (contract A @ solve(b) == b)."""
     import sympy
@@ -89,18 +108,22 @@ def c06(cfg):
     k = sum(explicit)
     nB = n - k
     mo = cfg["max_order"]
-    Q = basis(cfg["basis"], n)
+    Q, Lq = basis_pair(cfg["basis"], n)
+    biorth = Lq is not Q
+    assert not (biorth and herm), "biorthogonal bases are a non-Hermitian-mode feature"
     Ev = [Fraction(x) for x in cfg["spectrum"]]
     Efl = np.array([float(e) for e in Ev])
-    H0_lab = (Q * Efl) @ Q.conj().T
-    if np.allclose(H0_lab.imag, 0):
-        H0_lab = H0_lab.real
-    assert np.allclose(H0_lab @ Q, Q * Efl)
+    H0_lab = (Q * Efl) @ Lq.conj().T
+    if np.allclose(np.asarray(H0_lab).imag, 0):
+        H0_lab = np.asarray(H0_lab).real
+    assert np.array_equal(H0_lab @ Q, Q * Efl), "H_0 / eigenvectors not exactly representable"
     H1 = symc.hermitian("h_", n) if herm else symc.general("h_", n)
     H1lib = symc.SymArray(H1)
     off = np.cumsum([0] + explicit)
     vecs = [Q[:, off[b] : off[b + 1]].copy() for b in range(len(explicit))]
-    if cfg.get("pairs"):
+    if biorth:
+        vecs = [(v, Lq[:, off[b] : off[b + 1]].copy()) for b, v in enumerate(vecs)]
+    elif cfg.get("pairs"):
         vecs = [(v, v.copy()) for v in vecs]
     sig = f"implicit:herm={herm}:n={n}:explicit={'|'.join(map(str, explicit))}:basis={cfg['basis']}:h0={cfg.get('h0_format', 'dense')}"
     rec.sample = {"config": cfg}
@@ -112,7 +135,7 @@ def c06(cfg):
             series = block_diagonalize([h0_in, H1lib], subspace_eigenvectors=vecs, hermitian=herm, **({"fully_diagonalize": tuple(cfg["fd"])} if cfg.get("fd") else {}))
             nb = len(explicit) + 1
             QB = symc.const(Q[:, k:])
-            QBd = symc.dagger(QB)
+            QBd = symc.dagger(symc.const(Lq[:, k:]))
             lib = {}
             for w in range(3):
                 for o in range(mo + 1):
@@ -137,7 +160,7 @@ def c06(cfg):
     # reference: complete eigenbasis, carrier B
     sizes = list(explicit) + [nB]
     Qs = symc.const(Q)
-    H1_eig = symc.mm(symc.mm(symc.dagger(Qs), H1), Qs)
+    H1_eig = symc.mm(symc.mm(symc.dagger(symc.const(Lq)), H1), Qs)
     E = [SymC(symc._rv(e)) for e in Ev]
     refcfg = dict(carrier="B", hermitian=herm, sizes=sizes, max_order=mo, fd=cfg.get("fd"))
     P = bd.Problem(refcfg, E=E, classes=None, terms_data={(1,): H1_eig})
@@ -204,6 +227,76 @@ def c06(cfg):
     return rec
 
 
+def c16_direct(cfg):
+    """solve_sylvester_direct / direct_greens_function (Python part + exact LU stub): residual and range conditions."""
+    import pymablock.linalg as PL
+    from pymablock.block_diagonalization import solve_sylvester_direct
+    from pymablock.linalg import direct_greens_function
+    from scipy import sparse
+
+    rec = Rec("C16", cfg)
+    herm = cfg.get("hermitian", True)
+    n, explicit = cfg["n"], cfg["explicit"]
+    k = sum(explicit)
+    Q, Lq = basis_pair(cfg["basis"], n)
+    biorth = Lq is not Q
+    Efl = np.array([float(Fraction(x)) for x in cfg["spectrum"]])
+    H0 = (Q * Efl) @ Lq.conj().T
+    if np.allclose(np.asarray(H0).imag, 0):
+        H0 = np.asarray(H0).real
+    off = np.cumsum([0] + explicit)
+    vecs = [Q[:, off[b] : off[b + 1]].copy() for b in range(len(explicit))]
+    if biorth:
+        vecs = [(v, Lq[:, off[b] : off[b + 1]].copy()) for b, v in enumerate(vecs)]
+    sig = f"direct:herm={herm}:basis={cfg['basis']}:explicit={'|'.join(map(str, explicit))}"
+    rec.sample = {"config": cfg}
+    H0s = symc.const(H0)
+    Rk, Lk = symc.const(Q[:, :k]), symc.const(Lq[:, :k])
+    Pd = symc.eye(n) - symc.mm(Rk, symc.dagger(Lk))
+    last = len(explicit)
+    old = PL.factorized
+    PL.factorized = exact_factorized
+    try:
+        solve = solve_sylvester_direct(sparse.csr_array(H0) if cfg.get("h0_format") == "sparse" else sparse.csr_array(H0), list(vecs), nonhermitian=not herm)
+        for b in range(len(explicit)):
+            Eb = [SymC(symc._rv(Fraction(x))) for x in cfg["spectrum"][off[b] : off[b + 1]]]
+            D = symc.zeros(len(Eb), len(Eb))
+            for a in range(len(Eb)):
+                D[a, a] = Eb[a]
+            # right-implicit orientation (b, last)
+            Y = symc.general(f"y{b}r_", len(Eb), n)
+            V = np.asarray(solve(np.array(Y, dtype=object), (b, last, 1)), dtype=object)
+            x = rec.oblige(f"right-implicit ({b},{last}) residual", symc.mm(D, V) - symc.mm(V, H0s), symc.mm(Y, Pd), sig=sig + ":right-residual",
+                           replay=lambda m: (True, {"note": "exact identity of the solver output with the exact-LU stub"}))
+            rec.oblige(f"right-implicit ({b},{last}) range V P = V", symc.mm(V, Pd), V, sig=sig + ":right-range", replay=lambda m: (True, {}))
+            if x != "structural":
+                rec.nontrivial = True
+            if not herm:
+                Yl = symc.general(f"y{b}l_", n, len(Eb))
+                Vl = np.asarray(solve(np.array(Yl, dtype=object), (last, b, 1)), dtype=object)
+                rec.oblige(f"left-implicit ({last},{b}) residual", symc.mm(H0s, Vl) - symc.mm(Vl, D), symc.mm(Pd, Yl), sig=sig + ":left-residual", replay=lambda m: (True, {}))
+                rec.oblige(f"left-implicit ({last},{b}) range P V = V", symc.mm(Pd, Vl), Vl, sig=sig + ":left-range", replay=lambda m: (True, {}))
+        # direct_greens_function at an eigenvalue with its (possibly degenerate) kernel
+        groups = {}
+        for idx_, e in enumerate(cfg["spectrum"][:k]):
+            groups.setdefault(e, []).append(idx_)
+        for e, idxs in groups.items():
+            kv, lkv = Q[:, idxs].copy(), Lq[:, idxs].copy()
+            gf = direct_greens_function(sparse.csr_array(H0), float(Fraction(e)), kernel_vectors=kv, left_kernel_vectors=lkv if biorth else None)
+            v = symc.general("g_", n, 1)[:, 0]
+            xsol = np.asarray(gf(np.array(v, dtype=object)), dtype=object)
+            Pk = symc.eye(n) - symc.mm(symc.const(kv), symc.dagger(symc.const(lkv)))
+            Em = symc.eye(n) * SymC(symc._rv(Fraction(e))) - H0s
+            rec.oblige(f"greens function E={e}: (E-H) x = P v", symc.mm(Em, xsol.reshape(-1, 1)), symc.mm(Pk, v.reshape(-1, 1)), sig=sig + ":greens-residual", replay=lambda m: (True, {}))
+            rec.oblige(f"greens function E={e}: P x = x", symc.mm(Pk, xsol.reshape(-1, 1)), xsol.reshape(-1, 1), sig=sig + ":greens-range", replay=lambda m: (True, {}))
+    finally:
+        PL.factorized = old
+    from .. import solver
+
+    rec.guard("assumptions_sat", solver.assumptions_sat() == "sat")
+    return rec
+
+
 def _numeric_replay(cfg, model, w, i, j, o):
     """Concrete replay with the REAL sparse LU (no stub): implicit vs complete-basis run, plain numpy."""
     from pymablock import block_diagonalize
@@ -214,9 +307,10 @@ def _numeric_replay(cfg, model, w, i, j, o):
     herm = cfg.get("hermitian", True)
     n, explicit = cfg["n"], cfg["explicit"]
     k = sum(explicit)
-    Q = basis(cfg["basis"], n)
+    Q, Lq = basis_pair(cfg["basis"], n)
+    biorth = Lq is not Q
     Efl = np.array([float(Fraction(x)) for x in cfg["spectrum"]])
-    H0_lab = (Q * Efl) @ Q.conj().T
+    H0_lab = (Q * Efl) @ Lq.conj().T
     H1 = np.zeros((n, n), dtype=complex)
     for a in range(n):
         for b in range(n):
@@ -226,12 +320,15 @@ def _numeric_replay(cfg, model, w, i, j, o):
             H1[a, b] = re + 1j * im if (not herm or a <= b) else re - 1j * im
     off = np.cumsum([0] + explicit)
     vecs = [Q[:, off[b] : off[b + 1]] for b in range(len(explicit))]
+    if biorth:
+        vecs = [(v, Lq[:, off[b] : off[b + 1]]) for b, v in enumerate(vecs)]
     h0_in = sparse.csr_array(H0_lab) if cfg.get("h0_format") == "sparse" else H0_lab
     kw = {"fully_diagonalize": tuple(cfg["fd"])} if cfg.get("fd") else {}
     imp = block_diagonalize([h0_in, H1], subspace_eigenvectors=vecs, hermitian=herm, **kw)
-    full = block_diagonalize([h0_in, H1], subspace_eigenvectors=vecs + [Q[:, k:]], hermitian=herm, **kw)
+    full = block_diagonalize([h0_in, H1], subspace_eigenvectors=vecs + [(Q[:, k:], Lq[:, k:]) if biorth else Q[:, k:]], hermitian=herm, **kw)
     last = len(explicit)
     QB = Q[:, k:]
+    LB = Lq[:, k:]
 
     def dense(v, d0, d1):
         if v is zero:
@@ -246,10 +343,10 @@ def _numeric_replay(cfg, model, w, i, j, o):
     a = imp[w][(i, j, o)]
     b = dense(full[w][(i, j, o)], sizes[i], sizes[j])
     if i == last and j == last:
-        b = QB @ b @ QB.conj().T
-        a = QB @ QB.conj().T if a is one else dense(a, n, n)
+        b = QB @ b @ LB.conj().T
+        a = QB @ LB.conj().T if a is one else dense(a, n, n)
     elif j == last:
-        b = b @ QB.conj().T
+        b = b @ LB.conj().T
         a = dense(a, sizes[i], n)
     elif i == last:
         b = QB @ b
@@ -278,6 +375,11 @@ def configs(tier):
         cfgs.append(dict(hermitian=herm, n=4, explicit=[1, 1], basis="complex", spectrum=["0", "2", "3", "7"], max_order=3))
         cfgs.append(dict(hermitian=herm, n=4, explicit=[1, 2], basis="hadamard", spectrum=["0", "1", "2", "7"], max_order=2, h0_format="sparse"))
         if not herm:
+            # genuinely biorthogonal explicit bases (R != L), real and complex, one and two explicit blocks, degenerate level
+            cfgs.append(dict(hermitian=False, n=3, explicit=[1], basis="biorth", spectrum=["0", "1", "3"], max_order=3))
+            cfgs.append(dict(hermitian=False, n=3, explicit=[1], basis="biorth_complex", spectrum=["0", "2", "3"], max_order=3))
+            cfgs.append(dict(hermitian=False, n=4, explicit=[2], basis="biorth_complex", spectrum=["1", "1", "4", "6"], max_order=2))
+            cfgs.append(dict(hermitian=False, n=4, explicit=[1, 1], basis="biorth", spectrum=["0", "2", "3", "7"], max_order=2, h0_format="sparse"))
             cfgs.append(dict(hermitian=False, n=3, explicit=[1], basis="identity", spectrum=["0", "1", "3"], max_order=3, pairs=True))
             cfgs.append(dict(hermitian=False, n=4, explicit=[2], basis="complex", spectrum=["0", "2", "3", "7"], max_order=2, pairs=True))
         if tier == "thorough":
@@ -285,3 +387,17 @@ def configs(tier):
             cfgs.append(dict(hermitian=herm, n=5, explicit=[1, 1], basis="hadamard", spectrum=["0", "1", "3", "7", "12"], max_order=3))
             cfgs.append(dict(hermitian=herm, n=4, explicit=[2], basis="complex", spectrum=["0", "2", "3", "7"], max_order=4))
     return [("vf.props.implicit", "c06", c) for c in cfgs]
+
+
+def configs_c16_direct(tier):
+    cfgs = []
+    for herm in (True, False):
+        cfgs.append(dict(hermitian=herm, n=3, explicit=[1], basis="identity", spectrum=["0", "1", "3"], _job="direct"))
+        cfgs.append(dict(hermitian=herm, n=4, explicit=[2], basis="hadamard", spectrum=["0", "0", "3", "7"], _job="direct"))
+        cfgs.append(dict(hermitian=herm, n=4, explicit=[1, 1], basis="complex_hadamard", spectrum=["0", "2", "3", "7"], _job="direct"))
+        cfgs.append(dict(hermitian=herm, n=3, explicit=[1], basis="complex", spectrum=["0", "2", "3"], _job="direct"))
+        if not herm:
+            cfgs.append(dict(hermitian=False, n=3, explicit=[1], basis="biorth", spectrum=["0", "1", "3"], _job="direct"))
+            cfgs.append(dict(hermitian=False, n=4, explicit=[2], basis="biorth_complex", spectrum=["1", "1", "4", "6"], _job="direct"))
+            cfgs.append(dict(hermitian=False, n=4, explicit=[1, 2], basis="biorth_complex", spectrum=["0", "2", "3", "7"], _job="direct"))
+    return [("vf.props.implicit", "c16_direct", c) for c in cfgs]
